@@ -138,7 +138,7 @@ func report(cfg *PropCfg, tier string, seed int64, results []*HarnessResult, hcf
 	var samples []interface{}
 	perHarness := []map[string]interface{}{}
 	reachWitness := int64(0)
-	replayDir := filepath.Join(verifDir, "replay", cfg.Property)
+	replayDir := filepath.Join(outDir, "replay", cfg.Property)
 	os.MkdirAll(replayDir, 0o755)
 	// clean stale replay files of this property
 	if ents, err := os.ReadDir(replayDir); err == nil {
@@ -377,9 +377,9 @@ func report(cfg *PropCfg, tier string, seed int64, results []*HarnessResult, hcf
 		"wall_s":      wallS + time.Since(t0).Seconds(),
 		"violations":  len(violationsOut),
 	}
-	os.MkdirAll(filepath.Join(verifDir, "evidence"), 0o755)
+	os.MkdirAll(filepath.Join(outDir, "evidence"), 0o755)
 	eb, _ := json.MarshalIndent(ev, "", " ")
-	os.WriteFile(filepath.Join(verifDir, "evidence", cfg.Property+".json"), eb, 0o644)
+	os.WriteFile(filepath.Join(outDir, "evidence", cfg.Property+".json"), eb, 0o644)
 
 	for _, l := range knownOut {
 		fmt.Println(l)
